@@ -331,7 +331,16 @@ fn do_fen(fields: &[&str], out: &mut dyn Write) {
 
 fn do_eval(fields: &[&str], out: &mut dyn Write) {
     let r = catch_unwind(AssertUnwindSafe(|| match BoardState::from_fen(fields[1]) {
-        Ok(b) => format!("eval {}", evaluation::get_evaluation(&b)),
+        Ok(b) => {
+            // the board, then the same board handed to the other side exactly as the null move does it
+            // (a clone whose to_move is flipped and whose key is left alone), then the board once more
+            let e = evaluation::get_evaluation(&b);
+            let mut t = b.clone();
+            t.to_move = b.to_move.opposite();
+            let tw = evaluation::get_evaluation(&t);
+            let again = evaluation::get_evaluation(&b);
+            format!("eval {} twin {} again {}", e, tw, again)
+        }
         Err(_) => "eval badfen".to_string(),
     }));
     let i = r.unwrap_or_else(|_| "eval PANIC".to_string());
